@@ -121,6 +121,9 @@ type FakeAuth struct {
 	// Answer decides every call; it runs on the server goroutine while the proxy waits, so it may
 	// consult the explorer (the proxy call is synchronous).
 	Answer func(c *AuthCall) AuthAnswer
+	// Before / After run around Answer when the authenticator is served in memory (ProxyOpts.InMemoryAuth)
+	Before func(c *AuthCall)
+	After  func(c *AuthCall)
 }
 
 func NewFakeAuth() *FakeAuth {
@@ -186,15 +189,18 @@ func (f *FakeAuth) Take() []AuthCall {
 
 // ProxyOpts configures one proxy instance.
 type ProxyOpts struct {
-	YAML            string   // upstream config document; {{backend:NAME}} is replaced by that backend's address
-	Backends        []string // names of recording backends to start
-	Cluster         string   // default "test"
-	DefaultGroups   []string // UPSTREAM_DEFAULT_GROUPS
-	DefaultDoms     []string // UPSTREAM_DEFAULT_EMAIL_DOMAINS
-	DefaultAddrs    []string // UPSTREAM_DEFAULT_EMAIL_ADDRESSES
-	Slug            string   // UPSTREAM_DEFAULT_PROVIDER (default "idp")
-	CookieSecure    bool
-	CookieDomain    string
+	YAML          string   // upstream config document; {{backend:NAME}} is replaced by that backend's address
+	Backends      []string // names of recording backends to start
+	Cluster       string   // default "test"
+	DefaultGroups []string // UPSTREAM_DEFAULT_GROUPS
+	DefaultDoms   []string // UPSTREAM_DEFAULT_EMAIL_DOMAINS
+	DefaultAddrs  []string // UPSTREAM_DEFAULT_EMAIL_ADDRESSES
+	Slug          string   // UPSTREAM_DEFAULT_PROVIDER (default "idp")
+	CookieSecure  bool
+	CookieDomain  string
+	// InMemoryAuth: back-channel calls are answered inside the calling goroutine (no sockets), for
+	// harnesses that run whole requests as threads of the cooperative scheduler
+	InMemoryAuth    bool
 	Lifetime        time.Duration
 	Valid           time.Duration
 	Grace           time.Duration
@@ -350,6 +356,9 @@ func NewProxyEnv(o ProxyOpts) (*ProxyEnv, error) {
 	if err != nil {
 		e.Close()
 		return nil, err
+	}
+	if o.InMemoryAuth {
+		proxyproviders.VerifSetBackChannel(inMemAuth{e.Auth})
 	}
 	e.Config = c
 	e.Handler = proxy.NewLoggingHandler(io.Discard, p, c.LoggingConfig, nil)
